@@ -123,7 +123,25 @@ def _worker_entry(args):
         return fn(wseed, **kwargs)
     except Exception:
         r = Result()
-        r.inconclusive.append("worker crashed (harness error): " + traceback.format_exc()[-2500:])
+        tb = traceback.format_exc()
+        # A harness exception is inconclusive - unless the reason is that a server child went
+        # away by itself: that is an observation about the system under test, not about us.
+        try:
+            import time as _t
+            from . import server as _server
+            _t.sleep(0.3)
+            dead = [s for s in _server.REGISTRY if s.died_by_itself()]
+            for s in dead[:2]:
+                err = s.stderr_text()
+                r.evaluations += 1
+                r.cell("post-mortem", "server-died")
+                r.cell("post-mortem", "harness-exception")
+                r.violation("server-died/unhandled/" + _server.panic_signature(err[-6000:]),
+                            "a server child exited %s by itself while the harness was talking to it (harness exception below)\n%s\n--- harness ---\n%s" % (
+                                s.exit_status(), err[-1800:], tb[-800:]))
+        except Exception:
+            pass
+        r.inconclusive.append("worker crashed (harness error): " + tb[-2500:])
         return r
 
 
